@@ -25,6 +25,16 @@ PROPS = {
 NEEDS_MODEL_FACTS = {'C01', 'C10', 'C15'}
 
 
+def is_structural_text(text):
+    """True for clauses that only relate counters, lengths and constants (no quantifier, no spec-function call)."""
+    t = re.sub(r'\b(len|old|final|spec_index|view|index)\s*\(', '(', text)
+    if re.search(r'\b(forall|exists)\b', t):
+        return False
+    if re.search(r'\b[A-Za-z_][A-Za-z_0-9:]*\s*\(', t):
+        return False
+    return True
+
+
 def fn_default_tags(contracts, fn):
     for c in contracts:
         if c.name == fn:
